@@ -394,20 +394,35 @@ def check_transform(program, rep):
     # WorldFromFileHandle wiring
     h = program.cls('WorldFromFileHandle')
     init = h.methods.get('__init__')
-    ok = False
-    for n in ast.walk(init.node):
-        if isinstance(n, ast.Call) and norm(n.func) in (
-                'self.transform_functions.extend',):
-            seq = n.args[0]
-            if isinstance(seq, (ast.Tuple, ast.List)) and len(seq.elts) == 2:
-                first, second = seq.elts
-                if norm(first) == 'default_processors_transformer' \
-                        and isinstance(second, ast.Call) and norm(
-                            second.func) == 'WorldFromFileTransformer' \
-                        and second.args and norm(second.args[0]) == (
-                            '[type_dict_transformer, object_dict_transformer,'
-                            ' resource_dict_transformer]'):
-                    ok = True
+    # every path of __init__ installs, in this order, the default
+    # processors transformer and the file transformer (extend / append /
+    # += forms; helpers building the lists are followed)
+    exits = [e for e in Walker(program, _D(program)).run(init, h)
+             if e.kind != 'raise']
+    ok = bool(exits)
+    for ex in exits:
+        installed = []
+        for e in ex.state.trace:
+            if e.kind != 'call' or not isinstance(e.sym.node, ast.Call):
+                continue
+            cn = e.sym.node
+            fn = norm(cn.func)
+            if fn == 'self.transform_functions.extend' and cn.args \
+                    and isinstance(cn.args[0], (ast.Tuple, ast.List)):
+                installed += list(cn.args[0].elts)
+            elif fn == 'self.transform_functions.append' and cn.args:
+                installed.append(cn.args[0])
+            elif fn.startswith('self.transform_functions.'):
+                installed.append(None)
+        good = len(installed) == 2 and installed[0] is not None and norm(
+            installed[0]) == 'default_processors_transformer' and isinstance(
+                installed[1], ast.Call) and norm(installed[1].func) == \
+            'WorldFromFileTransformer' and installed[1].args and norm(
+                installed[1].args[0]) == (
+                    '[type_dict_transformer, object_dict_transformer,'
+                    ' resource_dict_transformer]')
+        if not good:
+            ok = False
     rep.check(ok, 'C15.transform', init.where, 'transform_functions.extend',
               'default processors first, then the file with type / object / '
               'resource dict transformers in that order',
@@ -610,6 +625,9 @@ def check_markers(program, rep):
                     items[e.target.text] = e.sym.node.elts[e.extra]
             conds = {resolve(e.sym.text, items): e.extra
                      for e in ex.state.trace if e.kind == 'cond'}
+            if any(t in ('True', 'False') and (t == 'True') != v
+                   for t, v in conds.items()):
+                continue        # infeasible: a flag of the dispatch table
             val = resolve(ex.payload.text, items) if ex.payload else None
             isstr = conds.get(f'isinstance({arg}, str)')
             matched = [t for t, v in conds.items() if t.endswith(' is None')
